@@ -28,6 +28,8 @@ typedef std::vector<Node> NV;
 
 enum Dom { ANY, POS, UNIT, MID };  // nonzero / positive / |x| <= 1 / 1/2 <= |x| <= 3/2
 
+static Device *g_other = nullptr;  // a second device object of the other backend
+
 struct Case {
   std::vector<Shape> ps;
   std::vector<Dom> dom;
@@ -109,6 +111,7 @@ static Case make_case(const std::string &name, Rng &r) {
       if (fn == "transpose") return F::transpose(x[0]);
       if (fn == "stop_gradient") return F::stop_gradient(x[0]) * 2.0f;
       if (fn == "copy") return F::copy(x[0], x[0].device());
+      if (fn == "copy_cross") return F::copy(F::tanh(F::copy(x[0], *g_other)), x[0].device());
       if (fn == "dropout_off") return F::dropout(x[0], 0.5f, false);
       if (fn == "square") return x[0] * x[0];
       if (fn == "fanout") return F::tanh(x[0]) * x[0] + F::sigmoid(x[0]) - x[0];
@@ -414,6 +417,9 @@ static std::string exec(const std::vector<std::string> &w) {
   if (w[0] == "eigen") dev.reset(new devices::Eigen());
   else if (w[0] == "naive") dev.reset(new devices::Naive());
   else throw BadOp();
+  std::unique_ptr<Device> other;
+  if (w[0] == "eigen") other.reset(new devices::Naive()); else other.reset(new devices::Eigen());
+  g_other = other.get();
   Device::set_default(*dev);
   Rng r(vh::to_u32(w[2]) * 2654435761u + 17);
   Case c = make_case(w[1], r);
